@@ -184,6 +184,10 @@ def resolve (cfg : Config) (s : StObs) (vel : Nat) (sub : Sub) (code : Code) : O
       let n : Int := (k.note : Int) + 12 * s.oct + s.semi
       if n < 0 ∨ n > 127 then none else some (n.toNat, (s.ch + k.chOff) % 16, vel)
 
+/-- C13: All Notes Off (CC 123, value 0) followed by a Note Off for each of the 128 notes, on channel `ch` -/
+def panicMsgs (ch : Nat) : List Out :=
+  .midi (0xB0 + ch) 123 0 :: (List.range 128).map (fun n => .midi (0x80 + ch) n 0)
+
 def noteOnMsg (ch n v : Nat) : Out := .midi (0x90 + ch) n v
 def noteOffMsg (ch n : Nat) : Out := .midi (0x80 + ch) n 0
 
@@ -212,7 +216,7 @@ def expectKey (cfg : Config) (b : Book) (sub : Sub) (code : Code) (val : Int) : 
           else (⟨none, none, none, false, true, none⟩, { b with acts := acts', ok := false })
         | _ => (⟨none, none, none, false, true, none⟩, { b with acts := acts', ok := false })
       else
-        let outs : List Out := if a = .panic then panicOuts s.ch else []
+        let outs : List Out := if a = .panic then panicMsgs s.ch else []
         (⟨some outs, some (actionEffect cfg s a), some b.pinned.length, false, true, none⟩, { b with acts := acts' })
     else
       (⟨some [], keepSt s, some b.pinned.length, false, true, none⟩, { b with acts := serase a b.acts })
